@@ -3,12 +3,13 @@ stream processor vs. live hooks (C20). Implementation side only."""
 import copy
 import io
 
-from . import impl
+from . import impl, guard
 from .refprinter import read_words
 
 
 # --------------------------------------------------------------------------- C18
 
+@guard.violation_on_hang(lambda m: [m])
 def c18_lossless(text, parser=None):
     """parseLines consumes the text completely and fullText concatenates back to it.
     `parser` may be a used parser object (state from earlier lines must not leak)."""
@@ -42,9 +43,24 @@ def c18_lossless(text, parser=None):
         return out
     if "".join(pieces) != text:
         out.append("concatenated fullText %r != input %r" % ("".join(pieces), text))
+    # the generator API itself: `parseLines` must stop, having yielded lines that tile the text
+    try:
+        q = impl.GcodeParser()
+        texts = []
+        for n, line in enumerate(q.parseLines(text)):
+            if n > len(text) + 5:
+                out.append("parseLines does not stop: more than %d lines for %d characters" % (n, len(text)))
+                break
+            texts.append(line.fullText)
+        else:
+            if "".join(texts) != text:
+                out.append("parseLines: concatenated fullText %r != input %r" % ("".join(texts), text))
+    except Exception as exc:  # pylint: disable=broad-except
+        out.append("parseLines: exception %s: %s" % (type(exc).__name__, exc))
     return out
 
 
+@guard.violation_on_hang(lambda m: [m])
 def c18_checksum(line, lineno):
     """A line rendered with line number and checksum validates against its own checksum."""
     out = []
@@ -67,6 +83,7 @@ def c18_checksum(line, lineno):
     return out
 
 
+@guard.violation_on_hang(lambda m: [m])
 def c18_idempotent(line):
     """Re-parsing commandString yields the same gcode, subCode, parameters, commandString."""
     out = []
@@ -83,6 +100,7 @@ def c18_idempotent(line):
     return out
 
 
+@guard.violation_on_hang(lambda m: [m])
 def c18_idempotent_seq(lines):
     """Idempotence of normalisation on parser objects that are re-used from line to line."""
     out = []
@@ -110,6 +128,7 @@ def c18_idempotent_seq(lines):
 
 # --------------------------------------------------------------------------- C19
 
+@guard.violation_on_hang(lambda m: [m])
 def c19_reader(params):
     """parameterItems (letter items) equals the reference reading of the same word string."""
     out = []
@@ -184,6 +203,7 @@ def live_result(h, line):
     return ("other", line, None)
 
 
+@guard.violation_on_hang(lambda m: [(0, m)])
 def c20_stream(cfg, pre_events, lines):
     """process_line on a copy vs. the live handlers on a twin, line for line; isolation."""
     from . import oracle
